@@ -141,7 +141,7 @@ def judge(data, prog=None):
         return (
             Failure(
                 case,
-                f"decompile of {data!r} does not rebuild the VM's value ({mm['kind']} differ)",
+                f"decompile of {data!r}{(' ' + mm['via']) if mm.get('via') else ''} does not rebuild the VM's value ({mm['kind']} differ)",
                 {"source": o.dec.src, **{k: str(v) for k, v in mm.items()}},
             ),
             "ran",
